@@ -191,6 +191,8 @@ def run_radar(case):
     items, stream, segs = materialise(case)
     drop = case.get("drop")
     opts = ["--retry-tcp"] if (drop and drop["retry"]) else []
+    if case.get("limit"):
+        opts.append("--limit-parsing")
     s = RadarSession("c16", rows=40, cols=120, lat=RX[0], lon=RX[1], opts=opts)
     try:
         drop_at = None
@@ -273,7 +275,7 @@ def run_radar(case):
             fails.append((f"C16/radar/{what}", f"well-formed lines {what}: expected {len(w)} in order, processed {len(got)}; first missing {missing[:1]}, duplicated {dup[:1]}"))
         else:
             # tracker keeps its aircraft (also across a reconnect): message counts on the Airplanes tab
-            exp = F.helper({"cmd": "trackdump", "frames": w + [SENTINELS[0].hex()], "rx": list(RX), "range": 500.0})
+            exp = F.helper({"cmd": "trackdump", "frames": w + [SENTINELS[0].hex()], "rx": list(RX), "range": 500.0, "limit_parsing": bool(case.get("limit"))})
             s.press("F3")
             want = {k: v["num_messages"] for k, v in exp["dump"]["records"].items()}
 
@@ -348,6 +350,7 @@ def worker(args):
         "cuts": st.lists(st.one_of(st.integers(0, 10000), st.tuples(st.just("s"), st.integers(0, 23), st.integers(0, 3))), max_size=24),
         "delays": st.lists(st.integers(0, len(DELAYS) - 1), min_size=1, max_size=8),
         "drop": drop,
+        "limit": st.sampled_from([False, False, True]),
     })
 
     @seed(args.seed * 1000 + args.worker)
